@@ -13,6 +13,7 @@ REGISTRY = {
     "C01": "matching",
     "C02": "matching",
     "C04": "ap",
+    "C05": "clear",
 }
 
 
